@@ -9,6 +9,7 @@ import (
 	"strings"
 	"sync"
 	"sync/atomic"
+	"syscall"
 	"time"
 
 	"verif/harness/evid"
@@ -118,12 +119,20 @@ func checkC17(tier, replay string) int {
 		cacheFiles = append(cacheFiles, cache)
 		os.Remove(cache)
 	}
+	otherTmp := c17OtherFsTmp(pe.home)
+	if otherTmp != "" {
+		defer os.RemoveAll(otherTmp)
+	}
+	ctx.Cov["tmpdir_on_another_file_system"] = otherTmp != ""
 	ctx.Sample(map[string]any{"cold_profile": cold[small], "listing_bytes": len(L), "big_listing_bytes": len(LB)})
 	type fault struct {
 		Kind    string `json:"kind"` // cut-exit | cut-kill | tool-missing | kill-at-write | err-at-write | none
 		P       int    `json:"p,omitempty"`
 		N       int    `json:"n,omitempty"`
 		Listing string `json:"listing"`
+		// the run's TMPDIR is a directory on a different file system than the cache directory (a rename between the two
+		// is refused with EXDEV; nothing about the cache may depend on where temporary files live)
+		OtherTmp bool `json:"tmpdir_on_other_fs,omitempty"`
 	}
 	type history struct {
 		Faults []fault `json:"faults"`
@@ -228,6 +237,39 @@ func checkC17(tier, replay string) int {
 		} else {
 			ctx.Capped("prlimit not available: file-size-limit faults skipped")
 		}
+		// the file system that holds the cache is full after P pages (a private mount namespace with a tmpfs of that size
+		// over the cache directory; unlike the size limit this hits only files in that directory, so whatever the profiler
+		// writes elsewhere - TMPDIR - succeeds); the file system is then enlarged and a normal run follows
+		if c17CanMount() {
+			for _, lst := range []struct {
+				name string
+				size int
+			}{{"small", len(L)}, {"big", len(LB)}} {
+				for pg := 1; pg <= lst.size/4096+2; pg++ {
+					hs = append(hs, history{[]fault{{Kind: "disk-full", P: pg, Listing: lst.name}}})
+					if otherTmp != "" {
+						hs = append(hs, history{[]fault{{Kind: "disk-full", P: pg, Listing: lst.name, OtherTmp: true}}})
+					}
+				}
+			}
+		} else {
+			ctx.Capped("no private mount namespace with a tmpfs available: full-disk faults skipped")
+		}
+		// environment: the same faults with TMPDIR on another file system than the cache
+		if otherTmp != "" {
+			for _, h := range append([]history{}, hs...) {
+				switch f := h.Faults[0]; f.Kind {
+				case "fsize-limit", "kill-at-write", "err-at-write":
+					f.OtherTmp = true
+					hs = append(hs, history{[]fault{f}})
+				case "kill-profiler-after":
+					if f.P%4096 == 0 || f.Listing == "small" {
+						f.OtherTmp = true
+						hs = append(hs, history{[]fault{f}})
+					}
+				}
+			}
+		}
 		// depth 2: a second fault before the normal run
 		var lineCuts []int
 		off = 0
@@ -266,6 +308,46 @@ func checkC17(tier, replay string) int {
 			return small
 		}
 		var last string
+		var tmpEnv []string
+		if h.Faults[0].OtherTmp && otherTmp != "" {
+			tmpEnv = []string{"TMPDIR=" + otherTmp}
+		}
+		if f := h.Faults[0]; f.Kind == "disk-full" {
+			lst := lstOf(f)
+			dir, _ := os.MkdirTemp(scratch, "df")
+			defer os.RemoveAll(dir)
+			script := fmt.Sprintf(`d=%q; o=%q
+mount -t tmpfs -o size=%dk,mode=755 tmpfs "$d" || exit 97
+"$@" >"$o/o1" 2>"$o/e1"; echo $? >"$o/rc1"
+ls -l "$d" >"$o/ls1" 2>&1
+mount -o remount,size=65536k "$d" || exit 98
+"$@" >"$o/o2" 2>"$o/e2"; echo $? >"$o/rc2"
+exit 0`, filepath.Dir(cache), dir, 4*f.P)
+			r := runCmd(120*time.Second, pe.env(lst, tmpEnv), scratch, "unshare", "-m", "sh", "-c", script, "sh", pe.profiler, "-format", "config", bin)
+			atomic.AddInt64(&runs, 2)
+			rd := func(n string) string { b, _ := os.ReadFile(filepath.Join(dir, n)); return string(b) }
+			rc1, rc2 := strings.TrimSpace(rd("rc1")), strings.TrimSpace(rd("rc2"))
+			if r.Exit != 0 || rc1 == "" || rc2 == "" {
+				ctx.Capped(fmt.Sprintf("a full-disk history could not be run (exit %d, %s)", r.Exit, clip(r.Stderr, 200)))
+				return
+			}
+			kindMu.Lock()
+			runsByKind[f.Kind]++
+			if rc1 != "0" {
+				failedByKind[f.Kind]++
+			}
+			kindMu.Unlock()
+			if rc1 != "0" {
+				atomic.AddInt64(&faultsHit, 1)
+			}
+			if rc1 == "0" && rd("o1") != cold[lst] {
+				ctx.Violation("C17:disk-full:run", fmt.Sprintf("with the cache directory on a file system of %d pages the profiler exited 0 with a profile that is not the cold-cache one:\n--- got\n%s--- cold\n%s", f.P, clip(rd("o1"), 400), clip(cold[lst], 400)), h)
+			}
+			if rc2 == "0" && rd("o2") != cold[lst] {
+				ctx.Violation("C17:disk-full", fmt.Sprintf("after a run (exit %s) with the cache directory on a full file system (%d pages, TMPDIR elsewhere: %v; directory afterwards: %s) the next normal run succeeded with a different profile than a cold-cache run (reused cache: %v):\n--- got\n%s--- cold\n%s", rc1, f.P, f.OtherTmp, clip(rd("ls1"), 200), strings.Contains(rd("e2"), "Using cached objdump"), clip(rd("o2"), 400), clip(cold[lst], 400)), h)
+			}
+			return
+		}
 		for _, f := range h.Faults {
 			last = lstOf(f)
 			var r cmdResult
@@ -275,9 +357,9 @@ func checkC17(tier, replay string) int {
 			case "cut-kill":
 				r = runProf(bin, last, []string{fmt.Sprintf("FAKE_CUT=%d", f.P), "FAKE_KILL=self"})
 			case "kill-profiler-after":
-				r = runProf(bin, last, []string{fmt.Sprintf("FAKE_CUT=%d", f.P), "FAKE_KILL=parent"})
+				r = runProf(bin, last, append([]string{fmt.Sprintf("FAKE_CUT=%d", f.P), "FAKE_KILL=parent"}, tmpEnv...))
 			case "fsize-limit":
-				r = runProf(bin, last, nil, "prlimit", fmt.Sprintf("--fsize=%d", f.P))
+				r = runProf(bin, last, tmpEnv, "prlimit", fmt.Sprintf("--fsize=%d", f.P))
 			case "tool-missing":
 				r = runCmd(60*time.Second, []string{"PATH=/nonexistent-dir", "HOME=" + filepath.Join(scratch, "home"), "USER=root"}, scratch, pe.profiler, "-format", "config", bin)
 			case "kill-at-write", "err-at-write":
@@ -292,7 +374,7 @@ func checkC17(tier, replay string) int {
 				// the N-th write(2) of every thread of the profiler and of every process it starts is a fault point (strace counts
 				// per tracee): log lines, the blocks of the cache file - written under a temporary name by the goroutine that
 				// copies the disassembler's output -, the emitted profile, and the disassembler's own writes into the pipe
-				r = runProf(bin, last, nil, "strace", "-f", "-o", "/dev/null", "-e", "trace=write", "-e", inj)
+				r = runProf(bin, last, tmpEnv, "strace", "-f", "-o", "/dev/null", "-e", "trace=write", "-e", inj)
 			}
 			atomic.AddInt64(&runs, 1)
 			if r.Exit != 0 {
@@ -305,7 +387,7 @@ func checkC17(tier, replay string) int {
 			runsByKind[f.Kind]++
 			kindMu.Unlock()
 		}
-		final := runProf(bin, last, nil)
+		final := runProf(bin, last, tmpEnv)
 		atomic.AddInt64(&runs, 1)
 		usedCache := strings.Contains(final.Stderr, "Using cached objdump")
 		if usedCache {
@@ -644,10 +726,44 @@ func checkC17(tier, replay string) int {
 	if straceUnavailable > 0 {
 		ctx.Capped("strace not available: write-level crash points skipped")
 	}
-	ctx.Cov["rule"] = "histories run1(fault)[; run2(fault')]; run(normal) on the real profiler binary with a fake `go` tool: disassembler prints the first p bytes of the listing and exits 1 or is killed (quick: every line boundary, every byte of the first two lines and of the execve site, around every 4096-byte flush boundary of a 20 kB listing; thorough: every byte), tool missing from PATH, the profiler itself killed with SIGKILL after the disassembler produced p bytes (every 1024 bytes of a 20 kB listing), SIGKILL or ENOSPC injected by strace at the N-th write(2) of every thread of the profiler and of its children (N=1..18, counted per thread: log lines, every block of the cache file, the emitted profile, the disassembler's writes), a file size limit L (RLIMIT_FSIZE, standing for a full disk; L around the hash line, around every 4096-byte boundary and around the complete size) that hits whoever writes the cache file, and depth-2 fault sequences at line granularity; oracle: the final normal run prints exactly the cold-cache profile or exits non-zero, and a reused cache file equals the complete one; replacement histories: the binary at the same path is replaced by another one (other architecture; same file with bytes of .text flipped, i.e. identical Go build id; also with a modification time two hours before the cache file's), with and without an EIO injected at the N-th read while hashing, and with the disassembler failing for the new binary while the old binary's complete cache file is still there (tool missing; exit 1 after all, half or none of the output; killed): a run that exits 0 must print the new binary's cold profile, and so must the normal run after it; overlapping runs: run A on a binary is paused after its disassembler printed pA bytes (6 values), run B on the same binary then completes, fails after q bytes or is killed after q bytes (5 values), A continues, then a normal run - A's own profile and the next run's must be the cold profile or an error; the same with the cache holding an older build's complete disassembly, A failing / being killed after the pause and an ordinary run B started while A is paused (B, too, must print the new build's profile or fail); distinct_nontrivial = histories"
+	ctx.Cov["rule"] = "histories run1(fault)[; run2(fault')]; run(normal) on the real profiler binary with a fake `go` tool: disassembler prints the first p bytes of the listing and exits 1 or is killed (quick: every line boundary, every byte of the first two lines and of the execve site, around every 4096-byte flush boundary of a 20 kB listing; thorough: every byte), tool missing from PATH, the profiler itself killed with SIGKILL after the disassembler produced p bytes (every 1024 bytes of a 20 kB listing), SIGKILL or ENOSPC injected by strace at the N-th write(2) of every thread of the profiler and of its children (N=1..18, counted per thread: log lines, every block of the cache file, the emitted profile, the disassembler's writes), a file size limit L (RLIMIT_FSIZE, standing for a full disk; L around the hash line, around every 4096-byte boundary and around the complete size) that hits whoever writes the cache file, the file system holding the cache directory full after P pages for every P up to the listing's size (private mount namespace, tmpfs of that size over the cache directory, enlarged before the normal run), the write faults, size limits and full-disk runs again with TMPDIR on another file system than the cache directory (tmpfs), and depth-2 fault sequences at line granularity; oracle: the final normal run prints exactly the cold-cache profile or exits non-zero, and a reused cache file equals the complete one; replacement histories: the binary at the same path is replaced by another one (other architecture; same file with bytes of .text flipped, i.e. identical Go build id; also with a modification time two hours before the cache file's), with and without an EIO injected at the N-th read while hashing, and with the disassembler failing for the new binary while the old binary's complete cache file is still there (tool missing; exit 1 after all, half or none of the output; killed): a run that exits 0 must print the new binary's cold profile, and so must the normal run after it; overlapping runs: run A on a binary is paused after its disassembler printed pA bytes (6 values), run B on the same binary then completes, fails after q bytes or is killed after q bytes (5 values), A continues, then a normal run - A's own profile and the next run's must be the cold profile or an error; the same with the cache holding an older build's complete disassembly, A failing / being killed after the pause and an ordinary run B started while A is paused (B, too, must print the new build's profile or fail); distinct_nontrivial = histories"
 	ctx.Assumptions = []string{"the fake go tool stands for any disassembler failure; the cache path is <home>/.seccomp-profiler/<base>-<sha256(abs)[:10]> as the profiler logs it", "strace injection realises crashes at write granularity"}
 	if replay != "" {
 		return finishReplay(ctx)
 	}
 	return ctx.Finish()
+}
+
+// c17OtherFsTmp returns a fresh directory on a file system other than the one holding the profiler's cache, or "".
+func c17OtherFsTmp(home string) string {
+	var a, b syscall.Stat_t
+	if syscall.Stat(home, &a) != nil {
+		return ""
+	}
+	for _, base := range []string{"/dev/shm", "/run", "/var/tmp"} {
+		if syscall.Stat(base, &b) != nil || a.Dev == b.Dev {
+			continue
+		}
+		if d, err := os.MkdirTemp(base, "c17tmp"); err == nil {
+			return d
+		}
+	}
+	return ""
+}
+
+var c17MountOnce sync.Once
+var c17MountOK bool
+
+// c17CanMount reports whether a private mount namespace with a tmpfs can be set up here.
+func c17CanMount() bool {
+	c17MountOnce.Do(func() {
+		d, err := os.MkdirTemp("", "c17mnt")
+		if err != nil {
+			return
+		}
+		defer os.RemoveAll(d)
+		r := runCmd(20*time.Second, os.Environ(), d, "unshare", "-m", "sh", "-c", fmt.Sprintf("mount -t tmpfs -o size=4k tmpfs %q && mount -o remount,size=64k %q", d, d))
+		c17MountOK = r.Exit == 0 && !r.TimedOut
+	})
+	return c17MountOK
 }
